@@ -68,6 +68,13 @@ def clientNow (snap : Except ShmErrorV Record) (bound : Except ShmErrorV Bound) 
     | .error e => .error e.toClient
     | .ok b => .ok b
 
+/-- the first error of the two calls, unconverted: `clientNow` is this error, converted
+    (`ErrorsProg.clientNow_eq_firstErr`) -/
+def firstErr (snap : Except ShmErrorV Record) (bound : Except ShmErrorV Bound) : Except ShmErrorV Bound :=
+  match snap with
+  | .error e => .error e
+  | .ok _ => bound
+
 /-- how many calls into clock-bound-shm `now()` makes: `snapshot()`, then `now()` if that succeeded -/
 def clientNowCalls (snap : Except ShmErrorV Record) : Nat :=
   match snap with
